@@ -1111,5 +1111,105 @@ func H_C08_late() {
 	vfCover("C08.late.end")
 }
 
+// ---------------------------------------------------------------------------------------------
+// C11 (release window, sync-point hook): a read that needs more than is there is stopped in front
+// of its k-th synchronisation operation - in particular between finding too little data and
+// entering its wait - while the releasing event happens: enough data arrives, the peer closes,
+// another goroutine closes the stream locally, the session is closed. The call must return with
+// the result that belongs to the event; a call that would wait for ever is a noblock violation.
+func H_C11_window() {
+	vfInfeasibleOK()
+	w := smSetup()
+	w.open()
+	w.send(0, true, 3)
+	w.deliverAB()
+	bs := w.b[0].stream
+	vfAssert(bs != nil, "C11.window.setup")
+	want := vfShape("want", 4, 6)
+	adv := vfShape("adversary", 0, 3)
+	cut := vfShape("cut", 0, 16)
+	dB := &c13Dispatcher{}
+	w.B.dispatcher = dB
+	fired := false
+	vfSyncHook(cut, func() {
+		fired = true
+		switch adv {
+		case 0:
+			w.send(0, true, 3)
+			w.deliverAB()
+		case 1:
+			w.closeEnd(0, true)
+			w.deliverAB()
+		case 2:
+			w.closeEnd(0, false)
+		default:
+			w.B.Close()
+			for i := 0; i < 2; i++ {
+				if i < len(dB.posted) {
+					dB.posted[i]()
+				}
+			}
+		}
+	})
+	b, err := bs.BufferReader().ReadBytes(want)
+	vfStallHookOff()
+	if !fired {
+		vfPrune()
+	}
+	switch adv {
+	case 0:
+		vfAssert(err == nil && len(b) == want, "C11.read-returns-when-enough-data-arrived")
+		for j := 0; j < 6; j++ {
+			if j < want && err == nil {
+				vfAssert(b[j] == w.b[0].model[j], "C07.only-own-bytes-in-order")
+			}
+		}
+	case 1:
+		vfAssert(err == ErrEndOfStream, "C11.read-reports-end-after-peer-close")
+	case 2:
+		vfAssert(err == ErrStreamClosed || err == ErrEndOfStream, "C11.read-fails-after-local-close")
+	default:
+		vfAssert(err != nil, "C11.read-fails-after-session-close")
+	}
+	vfCover("C11.window.end")
+}
+
+// C10 (simultaneous closes, sync-point hook): the client's Close is stopped in front of its k-th
+// synchronisation operation while the server closes its end, and the notifications travel in
+// either order. Both ends end up closed, neither stream stays active, every buffer is back.
+func H_SM_closewindow() {
+	vfInfeasibleOK()
+	w := smSetup()
+	w.open()
+	w.send(0, true, []int{3, 9}[vfShape("size", 0, 1)])
+	w.deliverAB()
+	vfAssert(w.b[0].stream != nil, "SM.closewindow.setup")
+	if vfShape("reply", 0, 1) == 1 {
+		w.send(0, false, 3) // an answer is under way (possibly never read)
+	}
+	cut := vfShape("cut", 0, 24)
+	adv := vfShape("adversary", 0, 2)
+	fired := false
+	vfSyncHook(cut, func() {
+		fired = true
+		w.closeEnd(0, false)
+		switch adv {
+		case 1:
+			w.deliverBA() // the server's close reaches the client while its own Close is under way
+		case 2:
+			w.deliverAB()
+			w.deliverBA()
+		}
+	})
+	w.closeEnd(0, true)
+	vfStallHookOff()
+	if !fired {
+		vfPrune()
+	}
+	w.monotone()
+	w.windDown()
+	vfCover("SM.closewindow.end")
+}
+
 // the session model's queue memory is plain harness memory: nothing to unmap or unlink
 func vfstub_sm_qmUnmap(q *queueManager) {}
